@@ -102,7 +102,9 @@ def decode(n, P, Q, mode):
     e = {"n": n, "P": P, "Q": Q, "mode": mode, "raised": False, "lat": True, "inf": [], "last": [0, 0], "reuse": reuse}
     try:
         with core.quiet():
-            hmm.estimate(tr, "obs", verbose=MODE_VERBOSE_NONE)
+            # the verbosity argument is cosmetic: the decoding may not depend on it (mode 2 is what mapOnNetwork(verbose=True) uses)
+            e["verbose"] = (0, 0, 2, 3, 1, 0, 2, 0)[_CALLS[0] % 8]
+            hmm.estimate(tr, "obs", verbose=e["verbose"])
             inf = [tr["hmm_inference", k] for k in range(T)]
             last = tr["hmm_cost", T - 1]
         e["inf"] = [[int(v) // 100, int(v) % 100] for v in inf]
